@@ -152,6 +152,12 @@ IsPrivateKey(k) == k # "" /\ SubSeq(k, 1, 1) = "_"
 (*   - floats compare by bit pattern, all NaNs being identified by class   *)
 (*     (used for round-trip comparisons, not for Python's nan != nan)      *)
 (***************************************************************************)
+\* int -> binary64 pattern for |i| < 2^53 (exact); used for Python's 0.0 == 0, 2.0 == 2
+F64OfInt(v) == \* v: int value with at most 53 significant bits; result 8 bytes
+    LET m == StripZ(BytesToBits(v.mag)) IN
+    IF m = <<>> THEN <<0, 0, 0, 0, 0, 0, 0, 0>>
+    ELSE BitsToBytes(<<IF v.neg THEN 1 ELSE 0>> \o NatToBits(1023 + Len(m) - 1, 11) \o Tail(m) \o Rep(0, 52 - (Len(m) - 1)))
+FitsF64(v) == Len(StripZ(BytesToBits(v.mag))) <= 53
 IsNaN(f) == (f[1] % 128) = 127 /\ f[2] >= 240 /\ ~((f[2] = 240) /\ SubSeq(f, 3, 8) = <<0,0,0,0,0,0>>)
 IsFZero(f) == Tail(f) = <<0,0,0,0,0,0,0>> /\ (f[1] = 0 \/ f[1] = 128)
 \* EnumIntegerString is a str subclass: it compares as its text
@@ -161,6 +167,8 @@ RECURSIVE PyEq(_, _)
 PubKeys(d) == {i \in 1..Len(d.k) : ~IsPrivateKey(d.k[i])}
 PyEq(a, b) ==
     CASE IsIntLike(a) /\ IsIntLike(b) -> ToIntV(a) = ToIntV(b)
+      [] a.t = "float" /\ IsIntLike(b) -> FitsF64(ToIntV(b)) /\ (a.f = F64OfInt(ToIntV(b)) \/ (IsFZero(a.f) /\ IsZero(ToIntV(b))))
+      [] IsIntLike(a) /\ b.t = "float" -> FitsF64(ToIntV(a)) /\ (b.f = F64OfInt(ToIntV(a)) \/ (IsFZero(b.f) /\ IsZero(ToIntV(a))))
       [] a.t = "float" /\ b.t = "float" -> a.f = b.f \/ (IsNaN(a.f) /\ IsNaN(b.f)) \/ (IsFZero(a.f) /\ IsFZero(b.f))
       [] a.t = "list" /\ b.t = "list" ->
             Len(a.xs) = Len(b.xs) /\ \A i \in 1..Len(a.xs) : PyEq(a.xs[i], b.xs[i])
